@@ -712,3 +712,75 @@ def pattern_weight_builder(fggs, spec, semiring):
         ps['default'] = conv(ps['default'])
         return TP.realise(fggs.indices, ps, torch.bool if semiring == 'bool' else dtype)
     return builder
+
+
+def gen_broadcast_spec(rng, wdomain='real', allow_inf=False, max_dom=3):
+    """Non-recursive grammars whose nonterminal values are broadcast (stride-0) tensors: nonterminals of
+    arity 2-3 with rules that leave some or all external nodes without edges, used by parent rules
+    with few or no internal nodes and with the externals listed in a shuffled order."""
+    nlab = rng.randint(2, 3)
+    domains = {f'L{i}': rng.randint(1, max_dom) for i in range(nlab)}
+    if all(v == 1 for v in domains.values()):
+        domains['L0'] = 2
+    if rng.random() < 0.5:
+        domains = {l: max(2, v) for l, v in domains.items()}     # distinct-looking sizes expose transpositions
+    labs = sorted(domains)
+    terminals, rules = {}, []
+
+    def new_terminal(typ):
+        nm = f'f{len(terminals)}'
+        terminals[nm] = list(typ)
+        return nm
+    ne = rng.randint(1, 2)
+    nts = {}
+    names = ['S'] + [f'E{i}' for i in range(ne)]
+    for nm in names[1:]:
+        nts[nm] = [rng.choice(labs) for _ in range(rng.randint(2, 3))]
+    # E rules
+    for nm in names[1:]:
+        k = len(nts[nm])
+        for _ in range(rng.randint(1, 2)):
+            nodes = list(nts[nm])
+            ext = list(range(k))
+            edges = []
+            covered = rng.sample(range(k), rng.choice([0, 0, 1, max(0, k - 1)]))
+            for v in covered:
+                edges.append([new_terminal([nodes[v]]), [v]])
+            if rng.random() < 0.3:
+                edges.append([new_terminal([]), []])
+            if rng.random() < 0.3:
+                nodes.append(rng.choice(labs))     # edgeless internal node
+            rules.append(dict(lhs=nm, nodes=nodes, ext=ext, edges=edges))
+    # S: uses E's on its own externals, in permuted positions
+    pool_nodes = []
+    edges = []
+    for nm in names[1:]:
+        for _ in range(rng.randint(1, 2)):
+            att = []
+            for l in nts[nm]:
+                cands = [i for i, x in enumerate(pool_nodes) if x == l]
+                if cands and rng.random() < 0.5:
+                    att.append(rng.choice(cands))
+                else:
+                    pool_nodes.append(l)
+                    att.append(len(pool_nodes) - 1)
+            edges.append([nm, att])
+    for _ in range(rng.randint(0, 2)):
+        if pool_nodes:
+            v = rng.randrange(len(pool_nodes))
+            edges.append([new_terminal([pool_nodes[v]]), [v]])
+    n = len(pool_nodes)
+    n_int = rng.choice([0, 0, 0, 1]) if n > 1 else 0
+    ext = list(range(n))
+    rng.shuffle(ext)
+    ext = ext[:max(0, n - n_int)]
+    if len(ext) > 4:
+        ext = ext[:4]
+    rng.shuffle(edges)
+    nts['S'] = [pool_nodes[v] for v in ext]
+    rules.append(dict(lhs='S', nodes=pool_nodes, ext=ext, edges=edges))
+    rng.shuffle(rules)
+    spec = dict(domains=domains, terminals=terminals, nonterminals={n_: nts[n_] for n_ in names}, start='S', rules=rules,
+                weights={}, wdomain=wdomain)
+    gen_weights(rng, spec, (), allow_inf=allow_inf)
+    return spec
